@@ -1,6 +1,6 @@
 (* C17 - a reused parser, encoder, iterator or unfolder behaves like a fresh one.
    Statements only; proofs are in Cbor/RoundtripProofs.v. *)
-From SF Require Import Base.Prelude Core.Events Cbor.Enc Cbor.RoundtripProofs Json.Enc Json.EncProofs.
+From SF Require Import Base.Prelude Core.Events Cbor.Enc Cbor.RoundtripProofs Json.Enc Json.EncProofs Ubjson.Enc Ubjson.EncProofs.
 
 (* CBOR encoder: completing any well-formed document returns the length stack (the
    encoder's only nesting state) to exactly what it was before, from any state. *)
@@ -26,3 +26,10 @@ Theorem C17_json_enc_any_state : forall (ffmt : Z -> Z -> bytes) cfg t,
      je_first e' = after_val e /\ je_inarr e' = je_inarr e /\ w_fail (je_w e') = None.
 Proof. intros ffmt cfg t H. exact (json_enc_tree_exact ffmt cfg t H). Qed.
 Print Assumptions C17_json_enc_any_state.
+
+(* UBJSON encoder: the length stack is restored by every complete value, from any state
+   (no well-formedness needed). *)
+Theorem C17_ubj_enc_idle : forall t e i, w_fail (ue_w e) = None ->
+  exists e', ubj_run e (flatten t) i = (e', None) /\ ue_len e' = ue_len e.
+Proof. exact C17_ubj_enc_idle_any. Qed.
+Print Assumptions C17_ubj_enc_idle.
